@@ -242,3 +242,86 @@ func genStreamHuge(r *Rng, prop, phase string, pEarly, pErr float64) []*Scenario
 	s.Reader = rs
 	return []*Scenario{s}
 }
+
+// tightLimit is the smallest block-size limit under which the streaming
+// parser can still be expected to deliver input exactly like Parse: what it
+// must hold at once is a maximal run of adjacent root blocks (a paragraph
+// that splits into several definitions is buffered as a whole; a list's or an
+// indented code block's range already includes the blank lines that follow
+// it) from the start of its first line through the line that closes it plus
+// one byte of look-ahead, NUL-padded; the blank lines BETWEEN such runs are
+// outside every root block and are consumed one line at a time.  C08
+// quantifies over "root blocks below the limit": a limit a few bytes above
+// this is inside the quantifier however large the gaps between blocks are.
+func tightLimit(input []byte) (int, bool) {
+	blocks, _, ok := safeParse(input)
+	if !ok {
+		return 0, false
+	}
+	n := len(input)
+	lineStart := func(at int) int {
+		for at > 0 && input[at-1] != '\n' && input[at-1] != '\r' {
+			at--
+		}
+		return at
+	}
+	eol := func(at int) int { // end of the line containing at, its line ending included
+		i := at
+		for i < n && input[i] != '\n' && input[i] != '\r' {
+			i++
+		}
+		if i < n {
+			if input[i] == '\r' && i+1 < n && input[i+1] == '\n' {
+				i += 2
+			} else {
+				i++
+			}
+		}
+		return i
+	}
+	lineEnd := func(at int) int { // ... plus one byte of look-ahead (a CR needs it)
+		i := eol(at)
+		if i < n {
+			i++
+		}
+		return i
+	}
+	padded := func(a, b int) int {
+		if b > n {
+			b = n
+		}
+		if a > b {
+			a = b
+		}
+		return (b - a) + 2*bytes.Count(input[a:b], []byte{0})
+	}
+	need := 0
+	gapLines := func(a, b int) {
+		for a < b {
+			if x := padded(a, lineEnd(a)); x > need {
+				need = x
+			}
+			e := eol(a)
+			if e <= a {
+				break
+			}
+			a = e
+		}
+	}
+	prevEnd := 0
+	for i := 0; i < len(blocks); {
+		j := i
+		for j+1 < len(blocks) && blocks[j+1].StartOffset <= blocks[j].EndOffset {
+			j++
+		}
+		s, e := lineStart(int(blocks[i].StartOffset)), int(blocks[j].EndOffset)
+		gapLines(prevEnd, s)
+		if x := padded(s, lineEnd(e)); x > need {
+			need = x
+		}
+		prevEnd = e
+		i = j + 1
+	}
+	gapLines(prevEnd, n)
+	return need, true
+}
